@@ -110,6 +110,21 @@ def readings(tok):
     return None if all(v is None for v in out) else out
 
 
+COV = None      # line-coverage tracer, active only around the tied calls
+
+
+class traced:
+    '''Context manager: trace the anchored functions if a tracer is set.'''
+    def __enter__(self):
+        if COV is not None:
+            COV.__enter__()
+
+    def __exit__(self, *exc):
+        if COV is not None:
+            COV.__exit__(*exc)
+        return False
+
+
 class ImplDeck:
     '''Everything observed on the implementation for one deck text.'''
 
@@ -132,7 +147,8 @@ class ImplDeck:
                 for card in parser.cards(blocks='c', skipcomments=True):
                     content = card.content()
                     try:
-                        parts = cellcard.split(content)
+                        with traced():
+                            parts = cellcard.split(content)
                     except Exception as exc:   # pylint: disable=broad-except
                         parts = exc
                     self.cards.append((content, parts))
@@ -151,7 +167,8 @@ class ImplDeck:
                 with contextlib.redirect_stdout(io.StringIO()), \
                         warnings.catch_warnings():
                     warnings.simplefilter('ignore')
-                    cells, skipped = pcell.parse()
+                    with traced():
+                        cells, skipped = pcell.parse()
                 self.result = ('ok', cells, skipped)
             except Exception as exc:           # pylint: disable=broad-except
                 self.result = ('err', exc_class(exc), repr(exc)[:200])
@@ -461,6 +478,7 @@ EDGE_BUT = [
     'trcl=9', 'trcl=1.0', 'trcl=(1 2)', '*trcl=(1 2)', '*trcl=(1 2 3 4)',
     'trcl=(1 0 0 1 0 0 0 1 0 0 0 1)', '*trcl=(1 0 0 0 90 90 90 0 90 90 90 0)',
     '*trcl=(1 2 3 0 90 90 90 0 90 90 90 0 1)', 'trcl=(1 2 3) trcl=(4 5 6)',
+    'lat=1 fill=2', 'fill=2 lat=1', 'fill=1 (1 0 0) lat=2',
     'trcl=(1 x 3)', '*trcl=(1 2 3 x)', 'trcl', '*trcl', '*TRCL u=3', '*fill=2',
     '*FILL=1 imp:n=1', '*fill=2 trcl=(1 2 3)', 'imp:n=1.0+0', 'imp:n=2.5d-1',
     'trcl=(1.0+0 2 3)', 'trcl=1.0+0', 'fill=2 (1.5d0 0 0)', 'fill=2 (3.0+0)',
@@ -489,6 +507,7 @@ EDGE_BUT = [
 
 def gen_edge_deck(rng, base_deck, index=None):
     '''A valid deck plus one or two LIKE cards with raw BUT text.'''
+    first_index = index
     deck = dict(base_deck)
     cells = list(base_deck['cells'])
     ids = {c['id'] for c in cells}
@@ -510,6 +529,18 @@ def gen_edge_deck(rng, base_deck, index=None):
         pos = rng.randrange(len(cells) + 1)
         cells.insert(pos, cell)
         targets.append(cid)
+    forced = first_index is not None and first_index >= len(EDGE_BUT) \
+        and first_index % 6 == 5
+    if rng.random() < 0.08 or forced:
+        # an explicit card whose geometry does not parse, and a copy of it
+        cid = rng.choice([n for n in range(460, 480) if n not in ids])
+        bad = rng.choice(['-900 : : -1', '(-900 1', '-900 #', '1 -'])
+        cells.insert(0 if forced else len(cells),
+                     {'id': cid, 'mat': 0, 'rho': None, 'expr': ('s', -900),
+                      'text': f'{cid} 0 {bad} imp:n=1'})
+        if rng.random() < 0.5:
+            cells.append({'id': cid + 20, 'like': cid, 'but': {'raw': 'u=3'},
+                          'text': f'{cid + 20} like {cid} but u=3'})
     deck['cells'] = cells
     if deck.get('data'):
         # keep the data card in step with the number of cells, sometimes not
@@ -522,7 +553,13 @@ def edge_lattice_params(rng, deck):
     from t4_geom_convert.Kernel.Volume.Lattice import parse_ranges
     params = {}
     for cell in deck['cells']:
-        if cell['id'] >= 400 and rng.random() < 0.5:
+        raw = str(cell.get('but', {}).get('raw', '')).lower()
+        coin = rng.random() < 0.5
+        if raw.startswith('lat=1 fill=2'):
+            coin = False        # MissingLatticeOptError
+        elif raw.startswith('fill=2 lat=1') or raw.startswith('fill=1 (1 0 0)'):
+            coin = True         # homogeneous lattice from the --lattice option
+        if cell['id'] >= 400 and coin:
             params[cell['id']] = parse_ranges(
                 rng.choice([['0:1'], ['0:1', '0:0', '-1:1']]))
     return params
@@ -605,6 +642,32 @@ def corpus_failures():
 # ---------------------------------------------------------------------------
 
 def run(res, tier, seed, proofs_ok):
+    '''Ties and sweeps under a line-coverage tracer restricted to the anchored
+    functions: every reachable line must be executed by the tied calls.'''
+    import c15_cov
+    global COV
+    cov = COV = c15_cov.LineCov(c15_cov.anchored_functions())
+    try:
+        _run(res, tier, seed, proofs_ok)
+    finally:
+        COV = None
+    total, missing = cov.missing(c15_cov.UNREACHABLE)
+    res.obligation('coverage: the tied calls (cellcard.split, '
+                   'ParseMCNPCell.parse) execute every reachable line of the '
+                   f'anchored functions ({total} lines of {len(cov.codes)} code '
+                   'objects)', not missing, f'never executed: {missing[:6]}')
+    res.extra['anchored_lines'] = total
+    if missing:
+        res.violation('harness-error',
+                      'generated inputs no longer reach these lines of the '
+                      'anchored code (strengthen the generators): '
+                      f'{missing[:8]}',
+                      {'theorem_or_correspondence': 'coverage',
+                       'input': {'lines': [list(m) for m in missing[:30]]}},
+                      found_input=False)
+
+
+def _run(res, tier, seed, proofs_ok):
     rng = random.Random(seed)
     quick = tier == 'quick'
     n_valid = 150 if quick else 1200
